@@ -697,6 +697,14 @@ class Interp:
                 finally:
                     aborted = self.exits; self.exits = saved; self.aggregate_aborts = old_agg
                 outcomes = tuple((tuple(f[0] for f in s3.facts[nf:]), self.deep_snapshot(s3, r, site)) for s3, r in outs)
+                # a closure that is only summarised (handed to an unmodelled higher-order callee such as for_each / try_for_each / map)
+                # but whose body writes storage: the writes would otherwise vanish from the path's effect trace
+                ne = len(st.effects); hidden = {}
+                for s3, _ in outs:
+                    for e in s3.effects[ne:]:
+                        if e[0] in ('save', 'remove', 'opaque_mut_call'): hidden[(e[0], e[1])] = e
+                for (op, ns), e in sorted(hidden.items(), key=repr):
+                    st.effects.append(('opaque_mut_call', '%s inside closure %s' % (op, t[1]), None, 'storage %s of "%s" in a closure passed to an unmodelled callee' % (op, ns), None, e[5], st.stack, len(st.facts)))
                 outcomes = outcomes + tuple((tuple(f[0] for f in e['facts'][nf:]), ('abort', e['detail'])) for e in aborted)
             return ('lambda', t[1], caps, outcomes)
         if t[0] == 'tup':
